@@ -124,6 +124,11 @@ def gen_world(rng, index):
     if mcls in ("both", "molar_mass"):
         mat["molar_mass"] = round(rng.uniform(50.0, 5000.0), 3) if rng.random() > 0.06 else 1000.0 * rng.choice(NEAR_ONE)
     material = mat if len(mat) > 1 else mat["name"]
+    if mcls in ("both", "density") and rng.random() < 0.08:
+        # a Material subclass that computes its density from other properties (no stored 'density' at all)
+        por = rng.choice([0.25, 0.45, 0.5])
+        mat = dict(mat, __class__="Monolith", skeletal_density=round(mat.pop("density") / (1 - por), 6), porosity=por)
+        material = mat
     # data
     n = rng.randint(3, 25)
     scale_p = 10 ** (rng.uniform(-9, -3) if rng.random() < 0.25 else rng.uniform(-3, 1.5))   # incl. high-vacuum points
@@ -856,14 +861,54 @@ def execute(world, consts, rs=None, ops=None, n_ops=None):
                 op = gen_op(rng, expected[k])
             if k:
                 op["i"] = k
+            if rng.random() < 0.04:
+                # the isotherm (or its adsorbate) is copied in the middle of its history and the history goes on with the copy
+                op = {"op": "recopy", "how": rng.choice(["deepcopy", "pickle", "adsorbate_copy"])}
+                if k:
+                    op["i"] = k
             if rng.random() < 0.12:
                 op["verbose"] = True
-            if rng.random() < 0.15 and op["op"] != "observe":
+            if rng.random() < 0.15 and op["op"] not in ("observe", "recopy"):
                 op["positional"] = True
         step += 1
         k = op.get("i", 0) if op.get("i", 0) < n_iso else 0
         iso, orc, start = isos[k], orcs[k], starts[k]
         executed.append(op)
+        if op["op"] == "recopy":
+            # a copy is the same isotherm: same labels, same data, and the history continues on it as on the original.
+            # (A copy the library cannot make - the pinned tree cannot copy an adsorbate whose backend state exists - is
+            # no copy: the history continues on the original.)
+            import copy as _copy
+            import pickle as _pickle
+            before_s = snapshot(iso)
+            try:
+                if op["how"] == "deepcopy":
+                    new = _copy.deepcopy(iso)
+                elif op["how"] == "pickle":
+                    new = _pickle.loads(_pickle.dumps(iso))
+                else:
+                    new = iso
+                    new.adsorbate = _copy.copy(iso.adsorbate)
+                made = True
+            except Exception:
+                made = False
+            count("op:recopy")
+            count("probe:isotherm-copied-mid-history" if made else "probe:copy-refused-by-library")
+            if made:
+                if op["how"] != "adsorbate_copy" and n_iso == 2 and new.adsorbate is not isos[1 - k].adsorbate:
+                    pass        # the copy has its own Adsorbate now: nothing is shared with the sibling any more
+                isos[k] = iso = new
+                after_s = snapshot(iso)
+                ch = [c for c in orc.diff_snap(before_s, after_s) if c not in ("adsorbate", "material")]
+                if before_s["adsorbate"][1] != after_s["adsorbate"][1] or before_s["material"][1] != after_s["material"][1]:
+                    ch.append("adsorbate-or-material-content")
+                if ch:
+                    orc.fail("copy-differs", f"how={op['how']} changed={','.join(ch)}", {})
+                if orc.viol is not None:
+                    viol = orc.viol
+                    break
+            events.append(["recopy", k, None, ["copied" if made else "copy-refused"], ""])
+            continue
         before_s = snapshot(iso)
         others_before = [snapshot(x) for j, x in enumerate(isos) if j != k]
         before = before_s["labels"]
